@@ -40,6 +40,11 @@ func readVolume(volumeBytes []byte) (volume, error) {
 	// TODO: Check count of files saved in volume set, and other
 	// offsets and bytes.
 
+	// Every entry takes up at least its header plus one UTF-16
+	// code unit of file name.
+	if header.FileCount > uint64(buf.Len())/(sizeOfFileEntryHeader()+2) {
+		return volume{}, errors.New("file count too big")
+	}
 	entries := make([]fileEntry, header.FileCount)
 	var setHashInput []byte
 	for i := uint64(0); i < header.FileCount; i++ {
